@@ -37,9 +37,22 @@ def run(r: Run):
     for m in [Fraction(10 ** 6), Fraction(10 ** 7), Fraction(10 ** 9), Fraction(123456789)]:
         for n in [1, 50, 150, 300]:
             cases.append(("big", m, n, rng.choice([1, -2, 3])))
+    # the extended domain (length, sum, spacing only): a dense sweep — the largest finite terms of a long ladder on a
+    # megadalton mass sit just below f64::MAX, and whether their SUM stays finite depends on the mass
+    nbig = 0
+    for k in range(1200 if thorough else 240):
+        m = Fraction(int(10 ** (6 + 3 * k / (1200 if thorough else 240))))
+        cases.append(("big", m, rng.choice([150, 200, 250, 300]), rng.choice([1, -1, 2, -3])))
+        nbig += 1
+    for k in range(0, 300, 1 if thorough else 3):
+        cases.append(("big", Fraction(2_000_000 + 10_000 * k), 300, rng.choice([1, -2])))
+        nbig += 1
     lines = [f"poisson\t{fr(m)}\t{n}\t{z}" for _, m, n, z in cases]
     impl = r.impl("poisson", lines)
-    model = r.model("poisson", lines)
+    # the exact model is consulted in the "exact" regime only
+    mlines = [l for (regime, *_), l in zip(cases, lines) if regime == "exact"]
+    mout = iter(r.model("poisson", mlines))
+    model = [next(mout) if regime == "exact" else "-" for regime, *_ in cases]
     corr_ok = True
     for (regime, m, n, z), il, ml in zip(cases, impl, model):
         i = parse_pattern(il)
